@@ -179,7 +179,8 @@ pub fn recorded_mtimes(arch: &Path, band: &str) -> Vec<Value> {
         let raw = std::fs::read(&f).unwrap_or_default();
         if let Some(entries) = snap::raw::Decoder::new().decompress_vec(&raw).ok().and_then(|d| serde_json::from_slice::<Vec<Value>>(&d).ok()) {
             for e in entries {
-                out.push(serde_json::json!([e["apath"], e["mtime"], e["mtime_nanos"].as_u64().unwrap_or(0)]));
+                // (path, seconds, nanoseconds, recorded user, recorded group)
+                out.push(serde_json::json!([e["apath"], e["mtime"], e["mtime_nanos"].as_u64().unwrap_or(0), e["user"], e["group"]]));
             }
         }
     }
